@@ -347,6 +347,7 @@ class Ctx:
         self.first_snap = None
         self.sub_point = {}       # fid -> point submitted
         self.removed = False      # learner.remove_unfinished() was called: the runner is in its finally block
+        self.done_at_stop = set() # futures that had already finished when the runner began to stop
         self.all_result_calls = set()
 
     # ---- interning of points and values (real learners have float points)
@@ -409,6 +410,9 @@ class Ctx:
             return tell0(x, y)
 
         def remove_unfinished():
+            if not ctx.removed:
+                vis = ctx.futs if ctx.spec["kind"] == "blocking" else ctx.futobj
+                ctx.done_at_stop = {i for i, f in enumerate(vis) if f.done()}
             ctx.removed = True
             ctx.act(("remove",))
             return rem0()
